@@ -417,7 +417,7 @@ macro_rules! other {
 
 pub fn suite(out: &mut Out, seed: u64, thorough: bool, mode: &str) {
 	let mut rng = Rng::new(seed);
-	let max = PeriodType::MAX as u64;
+	let max = gen_max();
 	let lens: Vec<u64> = if thorough { vec![1, 2, 3, 4, 5, 7, 8, 13, 16, 31, 64, 127, 128, 200, 253, 254] } else { vec![1, 2, 3, 5, 14, 31, 254] };
 	let mut id = 0u64;
 	for &l in &lens {
